@@ -184,6 +184,9 @@ fn verif_tx_flow_three_ops() {
     kani::cover!(s0.acquired_connection_flow_controller_window().as_u64() > 0 && s1.acquired_connection_flow_controller_window().as_u64() > 0, "both streams hold credit");
 }
 
+#[path = "/verif/harness/transport/send_stream_reset.rs"]
+mod send_stream_reset;
+
 // ---- generated by tools/fixup.py: native replay entry ----
 #[cfg(not(kani))]
 #[test]
